@@ -722,12 +722,15 @@ func (s *Sim) Stop() {
 		s.W.KillCaller(in.Caller())
 	}
 	// a daemon whose loop never comes back (a goroutine parked for good inside the code under test) must not hang the
-	// tear-down: after two virtual minutes the scenario goes on, and what is left shows up in the bubble's leak list
+	// tear-down: after twenty virtual minutes the scenario goes on, and what is left shows up in the bubble's leak list.
+	// (Not two: some loops of the daemon look at their context only in a select beside a ticker that is always ready
+	// after their error sleep, so each round ends them with probability one half - replMonWriter with a dead local
+	// server needed more than twelve rounds once in about 6000 scenarios, which is slow, not a leak.)
 	done := make(chan struct{})
 	go func() { s.wg.Wait(); close(done) }()
 	select {
 	case <-done:
-	case <-time.After(2 * time.Minute):
+	case <-time.After(20 * time.Minute):
 		s.HungAtStop = true
 	}
 	s.ZK.Shutdown()
